@@ -16,7 +16,7 @@ MANIFEST = dict(
          "the lock is held for at most retry x (timeout + 100 ms + pause) (holder_time_bounded, potential-function invariant) and a free lock with parked callers is handed "
          "over before time passes. Tie = trace validation: real GeckoAsyncUdpProtocol.get with seeded concurrent callers of mixed retry/timeout on the virtual-time loop, "
          "scripted replies (prompt / late / never / wrong verb); every observed call, lock hand-off, poll, send, pause end and return must be enabled in the model and "
-         "agree with its send log and results. Gating is checked on the real GeckoAsyncSpa entry points. Session 4: an arrival-order monitor (no later caller is transmitted while an earlier caller has not completed). The lock shape of get() is a theorem over its regenerated suspension skeleton (get_lock_shape: every transmission while the caller holds the lock, the lock taken once per call, for every trace). Also the multi-segment request (GeckoAsyncStructure.get): every attempt consumes retry budget in both gets (every_attempt_consumes_budget over the regenerated skeletons) and the partial-loss pattern (a middle segment lost every time, the final one arriving) is driven on the real code. The answering-pings gate is searched with the real ping loop against a spa that stops answering, after silences of 150 s to two days (a week in the thorough tier), on a virtual clock that also drives time.time and datetime.now. A query whose replies are all lost while the spa keeps sending unsolicited partial updates (the connection`s consumers running); request_clock_is_the_handlers_own. Session 5: unwrapper_overwrites_its_fields_for_every_datagram (every normal end of GeckoPacketProtocolHandler.handle assigns addressing and content: nothing of the previous datagram survives; everyNormalEndDid_sound), and stray traffic on the real consumers: after an answered query the spa goes quiet for that verb while malformed framings, packets for another client or from another host and garbage arrive - the query reports failure after exactly its retry count; then the spa falls silent under the same strays and the answering-pings gate closes. The silence scenario also runs with the WALL clock stepped back an hour when the spa falls silent (vloop.WALL_SHIFT moves time.time / datetime.now without the monotonic clock). Round 14: the retransmissions of the real connection sequence (first transmission of every handshake request lost / one segment lost): new sequence number per attempt of one connection, attempts a timeout apart unless answered.",
+         "agree with its send log and results. Gating is checked on the real GeckoAsyncSpa entry points. Session 4: an arrival-order monitor (no later caller is transmitted while an earlier caller has not completed). The lock shape of get() is a theorem over its regenerated suspension skeleton (get_lock_shape: every transmission while the caller holds the lock, the lock taken once per call, for every trace). Also the multi-segment request (GeckoAsyncStructure.get): every attempt consumes retry budget in both gets (every_attempt_consumes_budget over the regenerated skeletons) and the partial-loss pattern (a middle segment lost every time, the final one arriving) is driven on the real code. The answering-pings gate is searched with the real ping loop against a spa that stops answering, after silences of 150 s to two days (a week in the thorough tier), on a virtual clock that also drives time.time and datetime.now. A query whose replies are all lost while the spa keeps sending unsolicited partial updates (the connection`s consumers running); request_clock_is_the_handlers_own. Session 5: unwrapper_overwrites_its_fields_for_every_datagram (every normal end of GeckoPacketProtocolHandler.handle assigns addressing and content: nothing of the previous datagram survives; everyNormalEndDid_sound), and stray traffic on the real consumers: after an answered query the spa goes quiet for that verb while malformed framings, packets for another client or from another host and garbage arrive - the query reports failure after exactly its retry count; then the spa falls silent under the same strays and the answering-pings gate closes. The silence scenario also runs with the WALL clock stepped back an hour when the spa falls silent (vloop.WALL_SHIFT moves time.time / datetime.now without the monotonic clock). Round 14: the retransmissions of the real connection sequence (first transmission of every handshake request lost / one segment lost): new sequence number per attempt of one connection, attempts a timeout apart unless answered. Round 15: addressed STATP traffic during the silent phase of the stray-traffic scenario - the ping gate closes although the spa keeps talking.",
     note="partial: time bounds hold under the fairness hypothesis (no event-loop stall), with one polling interval of slack per attempt; asyncio.Lock FIFO hand-off and "
          "'no pre-emption between awaits' are assumed (exercised by the traces). Known finding D12: the connected/ping gates are evaluated once at call entry, so a call "
          "parked on the lock can transmit after pings have gone stale.",
@@ -580,6 +580,9 @@ def search_strays(ctx):
                 await asyncio.sleep(1.0)
                 k += 1
                 proto.datagram_received(*kinds[k % len(kinds)](desc_id))
+                # ... and the spa itself goes on REPORTING changes (properly addressed partial updates) although it answers no ping: being
+                # heard from is not the same as answering pings
+                proto.datagram_received(rig.frame(desc_id, b"IOSclient", b"STATP\x01\x00" + bytes([40 + k % 50, k % 256, 7])), ADDR)
         st = asyncio.ensure_future(strays2())
         await asyncio.sleep(6 * cfg.GeckoConfig.PING_FREQUENCY_IN_SECONDS + 10)
         n0 = len(ft.sent)
